@@ -23,6 +23,8 @@ pub struct MtKid {
     polls: AtomicU64,
     wake_seq: AtomicU64,
     poll_seq: AtomicU64,
+    /// waker invocations for this child by the harness (counted before the call)
+    wakes: AtomicU64,
     addr: AtomicUsize,
     mailbox: Mutex<Vec<Waker>>,
     published: AtomicBool,
@@ -51,6 +53,13 @@ pub struct Shared {
 impl Shared {
     fn violation(&self, prop: &str, rule: &str, detail: String) {
         let mut v = self.viol.lock().unwrap();
+        if v.len() < 3 && prop != "INCONCLUSIVE" {
+            // flushed at once: the round may never return (e.g. a queue destructor that spins)
+            use std::io::Write;
+            let line = crate::json::Obj::new().str("property", prop).str("rule", rule).str("detail", &detail).str("desc", "threaded round").done();
+            let _ = writeln!(std::io::stdout(), "EARLY {line}");
+            let _ = std::io::stdout().flush();
+        }
         if v.len() < 8 {
             v.push((prop.into(), rule.into(), detail));
         }
@@ -215,6 +224,23 @@ struct BlockMon {
 static BLOCKS: Mutex<Option<BlockMon>> = Mutex::new(None);
 static POINTS: [AtomicU64; 8] = [const { AtomicU64::new(0) }; 8];
 static FP_PERMILLE: AtomicU32 = AtomicU32::new(0);
+/// stall watchdog of the threaded driver: a progress counter and the number of crate calls of each
+/// kind that are in flight (0 poll, 1 drop of the collection, 2 waker call)
+pub static PROGRESS: AtomicU64 = AtomicU64::new(0);
+pub static INFLIGHT: [AtomicU32; 3] = [const { AtomicU32::new(0) }; 3];
+struct InFlight(usize);
+impl InFlight {
+    fn new(k: usize) -> InFlight {
+        INFLIGHT[k].fetch_add(1, Relaxed);
+        InFlight(k)
+    }
+}
+impl Drop for InFlight {
+    fn drop(&mut self) {
+        INFLIGHT[self.0].fetch_sub(1, Relaxed);
+        PROGRESS.fetch_add(1, Relaxed);
+    }
+}
 
 thread_local! {
     static TRNG: std::cell::RefCell<Rng> = std::cell::RefCell::new(Rng::new(0x7157));
@@ -350,10 +376,12 @@ fn shadow_dec(sh: &Shared, w: &Waker) {
 }
 fn mt_drop(sh: &Shared, w: Waker) {
     shadow_dec(sh, &w);
+    let _f = InFlight::new(2);
     drop(w);
 }
 fn mt_wake(sh: &Shared, w: Waker) {
     shadow_dec(sh, &w);
+    let _f = InFlight::new(2);
     w.wake();
 }
 
@@ -519,6 +547,7 @@ pub fn round(cfg: &RoundCfg, seed: u64) -> (Vec<(String, String, String)>, Round
                 polls: AtomicU64::new(0),
                 wake_seq: AtomicU64::new(0),
                 poll_seq: AtomicU64::new(0),
+                wakes: AtomicU64::new(0),
                 addr: AtomicUsize::new(0),
                 mailbox: Mutex::new(Vec::new()),
                 published: AtomicBool::new(false),
@@ -573,6 +602,7 @@ pub fn round(cfg: &RoundCfg, seed: u64) -> (Vec<(String, String, String)>, Round
                     // completion: publish the state, then wake (a completion is never silent)
                     k.ready.store(true, Release);
                     k.wake_seq.fetch_max(sh.seq.fetch_add(1, SeqCst), SeqCst);
+                    k.wakes.fetch_add(1, Relaxed);
                     wk.wake_by_ref();
                 }
                 if r.chance(1, 2) {
@@ -594,6 +624,7 @@ pub fn round(cfg: &RoundCfg, seed: u64) -> (Vec<(String, String, String)>, Round
                     match r.below(8) {
                         0..=3 => {
                             k.wake_seq.fetch_max(sh.seq.fetch_add(1, SeqCst), SeqCst);
+                            k.wakes.fetch_add(1, Relaxed);
                             wk.wake_by_ref();
                         }
                         4 => extra.push(mt_clone(&sh, &wk)),
@@ -605,6 +636,7 @@ pub fn round(cfg: &RoundCfg, seed: u64) -> (Vec<(String, String, String)>, Round
                         6 => {
                             let c2 = mt_clone(&sh, &wk);
                             k.wake_seq.fetch_max(sh.seq.fetch_add(1, SeqCst), SeqCst);
+                            k.wakes.fetch_add(1, Relaxed);
                             mt_wake(&sh, c2);
                         }
                         _ => {
@@ -659,7 +691,10 @@ pub fn round(cfg: &RoundCfg, seed: u64) -> (Vec<(String, String, String)>, Round
             // poll until Pending
             loop {
                 polls_in_flight.fetch_add(1, Relaxed);
-                let r = subj.poll(&mut cx);
+                let r = {
+                    let _f = InFlight::new(0);
+                    subj.poll(&mut cx)
+                };
                 polls_in_flight.fetch_add(1, Relaxed);
                 st.polls += 1;
                 match r {
@@ -755,6 +790,42 @@ pub fn round(cfg: &RoundCfg, seed: u64) -> (Vec<(String, String, String)>, Round
                                 );
                             }
                         }
+                        // two idle polls (an executor may poll spuriously): nothing is queued, so
+                        // nothing may be polled - unless an entry sits in the ready queue twice
+                        if !finished {
+                            for _ in 0..2 {
+                                let r = {
+                                    let _f = InFlight::new(0);
+                                    subj.poll(&mut cx)
+                                };
+                                st.polls += 1;
+                                match r {
+                                    Out::Pending => {}
+                                    Out::Done | Out::All(_) => {
+                                        finished = true;
+                                        break;
+                                    }
+                                    Out::Kid(i) => {
+                                        if i < seen.len() {
+                                            seen[i] = true;
+                                        }
+                                    }
+                                    Out::Item(i, s) => next_seq[i] = s + 1,
+                                }
+                            }
+                            if finished {
+                                break 'outer;
+                            }
+                        }
+                        // M-COUNT totals: a child is polled at most once for its push and once per
+                        // waker invocation (merge sources: plus once per item they yielded)
+                        for (i, kid) in sh.kids.iter().enumerate() {
+                            let polls = kid.polls.load(SeqCst);
+                            let credit = 1 + kid.wakes.load(SeqCst) + kid.consumed.load(SeqCst) as u64;
+                            if polls > credit {
+                                sh.violation("C12", "total_polls_exceed_notifications", format!("child {i}: {polls} polls for 1 push + {} waker invocations + {} items", kid.wakes.load(SeqCst), kid.consumed.load(SeqCst)));
+                            }
+                        }
                         // phase B: complete everything, wake everything: the stream must end
                         phase_b = true;
                         for kid in sh.kids.iter() {
@@ -763,6 +834,7 @@ pub fn round(cfg: &RoundCfg, seed: u64) -> (Vec<(String, String, String)>, Round
                             let wk = kid.mailbox.lock().unwrap().last().map(|w| mt_clone(&sh, w));
                             if let Some(wk) = wk {
                                 kid.wake_seq.fetch_max(sh.seq.fetch_add(1, SeqCst), SeqCst);
+                                kid.wakes.fetch_add(1, Relaxed);
                                 mt_wake(&sh, wk);
                             }
                         }
@@ -823,7 +895,10 @@ pub fn round(cfg: &RoundCfg, seed: u64) -> (Vec<(String, String, String)>, Round
     let mut subj = Some(subj);
     if let Some(hs) = running {
         // cancelled mid-flight: the collection goes while wakers are being invoked elsewhere
-        drop(subj.take());
+        {
+            let _f = InFlight::new(1);
+            drop(subj.take());
+        }
         for h in hs {
             st.overlapping_wakes += h.join().unwrap_or(0);
         }
@@ -862,11 +937,15 @@ pub fn round(cfg: &RoundCfg, seed: u64) -> (Vec<(String, String, String)>, Round
     };
     match order {
         0 => {
-            drop(subj.take());
+            {
+                let _f = InFlight::new(1);
+                drop(subj.take());
+            }
             st.orphan_calls += use_and_drop(&sh, leftovers, &mut rng);
         }
         1 => {
             use_and_drop(&sh, leftovers, &mut rng);
+            let _f = InFlight::new(1);
             drop(subj.take());
         }
         _ => {
@@ -903,7 +982,10 @@ pub fn round(cfg: &RoundCfg, seed: u64) -> (Vec<(String, String, String)>, Round
             for _ in 0..rng.below(60) {
                 std::hint::spin_loop();
             }
-            drop(subj.take());
+            {
+                let _f = InFlight::new(1);
+                drop(subj.take());
+            }
             st.orphan_calls += h.join().unwrap_or(0);
         }
     }
